@@ -100,7 +100,7 @@ def witness_for(name, out):
 
 def run_for(prop, tier):
     res = []
-    cdir = os.path.join(D.BUILD, 'cache')
+    cdir = D.CACHE
     os.makedirs(cdir, exist_ok=True)
     for name, h in HARNESSES.items():
         if prop not in h['props']:
